@@ -33,6 +33,19 @@ Theorem spo_unknown : forall f sp max r l s,
 Proof. exact SPOProofs.spo_unknown. Qed.
 Print Assumptions spo_unknown.
 
+(* 3. completion, for every stack-pointer width 1 <= w <= 64 (sp_wf), i.e. for the 32-bit stack pointers
+      of x86 / mips / mipsel / ppc and the 64-bit ones of amd64 / aarch64 / aarch64eb alike: a function
+      whose entry block has no incoming edge is analysed without error (no sort error, no ordering error,
+      no panic, no conversion error) whenever the engine's step budget covers the C09 bound
+      1 + out_degree * |locations| * 3  (lattice height 2).  With the hard-coded budget 250000 this
+      covers every function with  out_degree * |locations| * 3 <= 250000. *)
+Theorem spo_completes : forall f sp max,
+  cfg_inv (f_cfg f) = true -> sp_wf sp f = true -> entry_has_no_incoming f = true ->
+  (1 + out_degree f * (length (locations f) * 3) <= S max)%nat ->
+  exists r, stack_pointer_offsets_max max f sp = Ok r.
+Proof. exact SPOProofs.spo_completes. Qed.
+Print Assumptions spo_completes.
+
 (* the hypotheses are satisfiable, and a number is reported: push; pop on x86 (esp = scalar 0, 32 bits) *)
 Definition esp : scalar := mks 0%N 32 None.
 Definition ex_f : func :=
